@@ -106,4 +106,22 @@ PROPS = {
                      "gRPC delivers PermissionDenied from an interceptor without invoking the handler (observed: the backend records no call)"],
         timeout={"quick": 900, "thorough": 3600},
     ),
+    "C12": dict(
+        engine="TestC12",
+        extract="typegraph",
+        lean_modules=["S2S.Props.C12"],
+        required_theorems=["C12_paths_translated_of_covers", "C12_current_tree_covers", "C12_every_path_translated", "C12_shortcuts_never_change_the_result"],
+        rule="(1) translator: the Go type graph of all 308 request/response types of both services as the reflective visitor walks it (981 struct types), the "
+             "namespace-name oracle bit per field from the proto tags, and the code's tables read from the running binary are regenerated into Lean and the "
+             "coverage obligations re-checked by kernel evaluation; (2) correspondence: for every root type, structural paths to namespace-name leaves (every "
+             "distinct leaf field x depth x blob-crossing at least once, plus a seeded sample; recursion bound 1 quick / 2 thorough) are turned into real "
+             "messages by reflection (events serialized into real history blobs with consistent event types), run through the real NamespaceNameTranslator, "
+             "and the leaf outcome compared with the Lean path-level visitor model over the regenerated graph; (3) monitor: every message, plus random "
+             "fully-populated messages of every root type (names incl. prefixes/substrings/chains a->b->c/empty), is compared with an independent "
+             "descriptor-driven reference translation (proto.Equal after canonical re-serialization of event blobs). Distinct by path.",
+        assumptions=["namespace-name oracle: singular string fields whose proto name is `namespace` or ends in `_namespace`, and NamespaceInfo.name",
+                     "DataBlob fields not holding history events are a reviewed list in the translator (AddTasksRequest.Task.blob, HistoryTask.blob, Chasm*.data, ReplicationTask.data); any new DataBlob field fails the obligation until reviewed",
+                     "protobuf codecs / serialization.Serializer / github.com/keilerkonzept/visit are modelled (universal descent into exported fields), validated by the correspondence"],
+        timeout={"quick": 900, "thorough": 3600},
+    ),
 }
